@@ -43,33 +43,36 @@ type C20Case struct {
 }
 
 type c20Shared struct {
-	nodes    []datamodel.Node // shared finished nodes of several implementations (and views)
-	nodeVals []val.V          // what each reads as (typed reader where needed)
-	typed    []bool
-	cbor     [][]byte // expected dag-cbor of nodes that are encodable (nil otherwise)
-	bytesN   []datamodel.Node
-	bytesV   []string
-	real     *graph.Real
-	g        graph.Graph
-	sel      selector.Selector
-	specNode datamodel.Node
-	linkRaw  []string
-	sel2     selector.Selector
-	visits2  int
-	matches2 int
-	cfg      *traversal.Config
-	visits   int
-	matches  int
-	links    []datamodel.Link
-	linkVals []val.V
-	schema   tschema.Schema
-	ts       *schema.TypeSystem
-	bproto   schema.TypedPrototype
-	tview    val.V
-	rview    val.V
-	gdProto  datamodel.NodePrototype
-	gdVal    val.V
-	lpLink   datamodel.Link
+	nodes        []datamodel.Node // shared finished nodes of several implementations (and views)
+	nodeVals     []val.V          // what each reads as (typed reader where needed)
+	typed        []bool
+	cbor         [][]byte // expected dag-cbor of nodes that are encodable (nil otherwise)
+	bytesN       []datamodel.Node
+	bytesV       []string
+	real         *graph.Real
+	g            graph.Graph
+	sel          selector.Selector
+	specNode     datamodel.Node
+	cfgNoChooser *traversal.Config
+	linkFree     datamodel.Node
+	node0Visits  int
+	linkRaw      []string
+	sel2         selector.Selector
+	visits2      int
+	matches2     int
+	cfg          *traversal.Config
+	visits       int
+	matches      int
+	links        []datamodel.Link
+	linkVals     []val.V
+	schema       tschema.Schema
+	ts           *schema.TypeSystem
+	bproto       schema.TypedPrototype
+	tview        val.V
+	rview        val.V
+	gdProto      datamodel.NodePrototype
+	gdVal        val.V
+	lpLink       datamodel.Link
 }
 
 var (
@@ -196,6 +199,17 @@ func c20Setup() (*c20Shared, error) {
 			return
 		}
 		s.cfg = selx.Config(s.real)
+		s.cfgNoChooser = &traversal.Config{Ctx: context.Background()}
+		{
+			count := 0
+			cfg := &traversal.Config{Ctx: context.Background()}
+			s.linkFree = nodes.MustBuild(val.MkMap(val.Ent{K: "a", V: val.MkList(val.MkInt(1), val.MkInt(2), val.MkMap(val.Ent{K: "b", V: val.MkString("x")}))}, val.Ent{K: "c", V: val.MkNull()}))
+			if err := (traversal.Progress{Cfg: cfg}).WalkAdv(s.linkFree, s.sel, func(traversal.Progress, datamodel.Node, traversal.VisitReason) error { count++; return nil }); err != nil {
+				c20Err = fmt.Errorf("walk over the shared link-free node: %w", err)
+				return
+			}
+			s.node0Visits = count
+		}
 		ref := refsel.Walk(s.g, exploreAll)
 		s.visits = len(ref.Visits)
 		for _, v := range ref.Visits {
@@ -311,6 +325,19 @@ func c20Do(s *c20Shared, op, step, gid int) error {
 			return fmt.Errorf("LoadPlusRaw of block %d differs", k2)
 		}
 	case 6: // WalkAdv with the shared selector and configuration
+		if step%3 == 2 {
+			// a shared configuration that sets the context but leaves the prototype chooser to the default (legal
+			// for link-free data), over a shared link-free node
+			count := 0
+			err := traversal.Progress{Cfg: s.cfgNoChooser}.WalkAdv(s.linkFree, s.sel, func(traversal.Progress, datamodel.Node, traversal.VisitReason) error { count++; return nil })
+			if err != nil || count != s.node0Visits {
+				return fmt.Errorf("WalkAdv over the shared link-free node made %d visits, want %d (err %v)", count, s.node0Visits, err)
+			}
+			if s.cfgNoChooser.LinkTargetNodePrototypeChooser != nil {
+				return fmt.Errorf("a walk wrote a prototype chooser into the caller's shared Config")
+			}
+			return nil
+		}
 		count := 0
 		sel, want := s.sel, s.visits
 		if step%2 == 1 {
